@@ -342,9 +342,15 @@ class Documentable:
                 # The local name was not found.
                 # If we're looking at a class, we try our luck with the inherited members
                 if isinstance(obj, Class):
-                    inherited = obj.find(p)
-                    if inherited: 
-                        full_name = inherited.fullName()
+                    # What the body of a base class binds to the name: a definition, 
+                    # or an import or alias (build = other.Thing) written in that class body.
+                    for base in obj.mro():
+                        if p in base.contents:
+                            full_name = base.contents[p].fullName()
+                            break
+                        if p in base._localNameToFullName_map:
+                            full_name = base._localNameToFullName_map[p]
+                            break
                 if full_name == p:
                     # We don't have a full name
                     # TODO: Instead of returning the input, _localNameToFullName()
